@@ -121,14 +121,25 @@ Variable base : bytes.
 
 Notation validate := (validate sha sigok).
 
+(* validate_patch_is_bootable as the file system sees it: with a key configured, an artifact of the recorded size and a
+   recorded signature, the artifact is opened and READ (signing::hash_file); if that read fails the patch counts as
+   invalid.  Existence and size are stat calls (not faulted). *)
+Definition validateM (key : option string) (m : meta) : M bool :=
+  d <- get ;;
+  match key, arts d (m_num m), m_sig m with
+  | Some _, Some (AFile b), Some _ =>
+      if N.eqb (blen b) (m_size m) then (ok <- rd ;; ret (ok && validate key d m)) else ret false
+  | _, _, _ => ret (validate key d m)
+  end.
+
 (* try_fall_back_from_patch: returns the new in-memory state even when the final save fails *)
 Definition fall_backM (key : option string) (s : pstate) (badn : N) : M (pstate * bool) :=
   ignore_err (rm_art badn) ;;;
-  d <- get ;;
   let nb1 := if numeq (nb s) badn then None else nb s in
   match lb s with
   | Some l =>
-      if negb (N.eqb (m_num l) badn) && validate key d l
+      v <- (if negb (N.eqb (m_num l) badn) then validateM key l else ret false) ;;
+      if negb (N.eqb (m_num l) badn) && v
       then let s' := {| lb := lb s; nb := match nb1 with None => Some l | Some x => Some x end;
                         cb := cb s; bad := bad s |} in
            ok <- attempt (write_pj s') ;; ret (s', ok)
@@ -143,8 +154,8 @@ Definition next_bootM (key : option string) (s : pstate) : M (pstate * option N)
   match nb s with
   | None => ret (s, None)
   | Some m =>
-      d <- get ;;
-      if validate key d m then ret (s, Some (m_num m))
+      v <- validateM key m ;;
+      if v then ret (s, Some (m_num m))
       else r <- fall_backM key s (m_num m) ;; ret (fst r, onum (nb (fst r)))
   end.
 
